@@ -184,6 +184,13 @@ def nMaxBearable (conv : Int → α) (p : Params α) (k : Nat) (recs : List Hyst
 /-- load vectors of points with proportional load sequences `c·l` -/
 def batchLoads (L : List Int) (cs : List Int) : List Vec := L.map fun l => cs.map (· * l)
 
+/-- `fkm_load_sequence.maximum_absolute_load(max_load_independently_for_nodes=True)` for the point at POSITION `k` of the
+rows of a multi-point load sequence: the maximum absolute value of column `k`.  (The maxima are matched to the points by
+position - the look-up tables are built from them in this order and `Binned` / the HCM detector use them by position; the
+code up to the repair `tools/fixes/C10-node-order.diff` returned them sorted by node label instead: finding
+`batch-node-order`.) -/
+def colMaxAbs (rows : List Vec) (k : Nat) : Int := maxAbsI (rows.map (·.getD k 0))
+
 /-- The assessment of point `k` in a call for all points `cs` (per-point load maxima requested):
 per-point look-up tables, class selection and every HCM decision on the first point. -/
 def assessBatch (conv : Int → α) (n : Nat) (p : Params α) (t : Tables) (L cs : List Int) (k : Nat) : Result α :=
